@@ -686,7 +686,8 @@ func PreprocessDeclarationsPrelude(baseURL string, declarations []pa.Compound, p
 		}
 	}
 
-	out = append(out, KeyedDeclarations{selectors, ownDecls})
+	// the declarations of the rule itself come before its nested rules in the order of appearance
+	out = append([]KeyedDeclarations{{selectors, ownDecls}}, out...)
 
 	return out, nil
 }
